@@ -372,3 +372,200 @@ theorem generate_le1 (T : SliderTables) (g : Game) (k : Sq) (h : PosH g k)
       · exact Or.inr (Or.inr (eCs.2 a))
 
 end Tcheran
+
+namespace Tcheran
+open Board Geometry Rules
+
+theorem toList_zero : BB.toList 0#64 = [] := by
+  unfold BB.toList
+  apply List.filter_eq_nil_iff.2
+  intro x _
+  rw [mem_zero]; simp
+
+theorem flatMap_nil' {α β} (l : List α) (f : α → List β) (h : ∀ x ∈ l, f x = []) : l.flatMap f = [] := by
+  induction l with
+  | nil => rfl
+  | cons x xs ih =>
+    rw [List.flatMap_cons, h x List.mem_cons_self, ih (fun y hy => h y (List.mem_cons_of_mem _ hy))]
+    rfl
+
+/-- **generate_exact, double check**: only king moves are generated and only king moves are legal -/
+theorem generate_gt1 (T : SliderTables) (g : Game) (k : Sq) (h : PosH g k)
+    (hn : BB.count (attackersOf g.board g.player k) > 1) :
+    ∃ caps cache quiets, generateCaptures g = some (caps, cache) ∧ generateQuiets g cache = some quiets ∧
+      ∀ m, m ∈ caps ++ quiets ↔ m ∈ legalMoves (ofGame g) := by
+  have hc := h.ctx.cons
+  let cache : MovegenCache := { checkers := attackersOf g.board g.player k }
+  refine ⟨Gen.kingCaptures g k (g.board.occFor g.player.other), cache, Gen.kingQuiets g k g.board.occupancy, ?_, ?_, ?_⟩
+  · unfold generateCaptures
+    rw [lsb_king g k h]
+    show (if BB.count (attackersOf g.board g.player k) > 1 then _ else _) = _
+    rw [if_pos hn]
+    rfl
+  · unfold generateQuiets
+    rw [lsb_king g k h]
+    show (if BB.count cache.checkers > 1 then _ else _) = _
+    rw [if_pos hn]
+    rfl
+  · intro m
+    -- with two checkers nothing satisfies the check condition: use the empty check mask
+    have hcm : ∀ d, mem 0#64 d = true ↔ CheckOK g.board.squares g.player.other k d := by
+      intro d
+      rw [mem_zero]
+      constructor
+      · intro e; cases e
+      · intro e; exact absurd e (checkOK_many T g.board hc g.player k d hn)
+    have ms := maskSpec_of T g k h 0#64 hcm
+    generalize (getPins g.board g.player k).1 = op at ms
+    generalize (getPins g.board g.player k).2 = dp at ms
+    have z : ∀ t, ¬ (mem 0#64 t = true) := fun t e => by rw [mem_zero] at e; cases e
+    have eKn := knight_moves_exact g.board g.player k h.ctx 0#64 op dp ms m
+    have eKg := king_moves_exact T g hc k (fun s => h.ctx.king s) m
+    have eD := slider_moves_exact_gen g.board g.player k h.ctx Dir.diagonal Dir.cardinal .bishop .rook
+      (Or.inr ⟨rfl, rfl, rfl, rfl⟩) bishopAttacks (fun s occ => T.bishop s occ) (g.board.diagSliders g.player)
+      (fun s => mem_sliders_spec g.board hc g.player .bishop s) 0#64 dp op ms.check ms.diag ms.orth m
+    have eO := slider_moves_exact_gen g.board g.player k h.ctx Dir.cardinal Dir.diagonal .rook .bishop
+      (Or.inl ⟨rfl, rfl, rfl, rfl⟩) rookAttacks (fun s occ => T.rook s occ) (g.board.orthSliders g.player)
+      (fun s => mem_sliders_spec g.board hc g.player .rook s) 0#64 op dp ms.check ms.orth ms.diag m
+    obtain ⟨Lep, hLep, sLep⟩ := enPassant_spec T g k h.ctx 0#64 op dp ms h.ep
+    have hKn0 : ¬ (m ∈ Gen.knightCaptures (g.board.knightsOf g.player) (g.board.occFor g.player.other) 0#64 op dp ++
+        Gen.knightQuiets (g.board.knightsOf g.player) g.board.occupancy 0#64 op dp) := by
+      unfold Gen.knightCaptures Gen.knightQuiets
+      simp [BitVec.and_zero, BitVec.zero_and, toList_zero]
+    have hsl0 : ∀ (att : Sq → BB → BB) (sl th all PS PO : BB),
+        ¬ (m ∈ sliderCaps att sl th all 0#64 PS PO ++ sliderQuiets att sl all 0#64 PS PO) := by
+      intro att sl th all PS PO
+      have hd : ∀ s, sliderDests att s all 0#64 PS = 0#64 := by
+        intro s
+        unfold sliderDests
+        simp only [BitVec.and_zero]
+        split
+        · exact BitVec.zero_and
+        · rfl
+      unfold sliderCaps sliderQuiets
+      simp [hd, BitVec.zero_and, toList_zero]
+    have hep0 : Lep = [] := by
+      unfold Gen.pawnEnPassant at hLep
+      cases hepv : g.ep with
+      | none => rw [hepv] at hLep; exact (Option.some.inj hLep).symm
+      | some t =>
+        rw [hepv] at hLep
+        simp only at hLep
+        cases hb : t.backward g.player with
+        | none => rw [hb] at hLep; cases hLep
+        | some v =>
+          rw [hb] at hLep
+          have : ¬ ((0#64 &&& (bb t ||| bb v)) ≠ 0#64) := by rw [BitVec.zero_and]; simp
+          change (if (0#64 &&& (bb t ||| bb v)) ≠ 0#64 then _ else _) = _ at hLep
+          rw [if_neg this] at hLep
+          exact (Option.some.inj hLep).symm
+    rw [legal_classes, List.mem_append, ← List.mem_append, eKg]
+    constructor
+    · rintro ⟨a, b⟩
+      exact Or.inr (Or.inr (Or.inr (Or.inr (Or.inr (Or.inr (Or.inr (Or.inr (Or.inl
+        ⟨k, (h.ctx.king k).2 rfl, a, b⟩))))))))
+    · rintro (a | a | a | a | a | a | a | a | a | a | a | a)
+      · exfalso
+        obtain ⟨s, df, t, hs, hdf, ho, hte, _, ⟨pr, _, e⟩, hl⟩ := a
+        rw [e] at hl
+        exact z t ((pawn_capture_legal g.board g.player k h.ctx 0#64 op dp ms s t _ df hdf hs ho hte (cp_src _ _ _)
+          (cp_dst _ _ _) (cp_flag _ _ _)).1 hl).1
+      · exfalso
+        obtain ⟨s, t, hs, ho, he, _, ⟨pr, _, e⟩, hl⟩ := a
+        rw [e] at hl
+        have hf : s.forward g.player = some t := by
+          rw [← (Geo.offset_forward s g.player (Geo.mem_players _)).1]; exact ho
+        exact z t ((pawn_push_legal g.board g.player k h.ctx 0#64 op dp ms s t _ hs hf he (qp_src _ _ _)
+          (qp_dst _ _ _) (qp_flag _ _ _)).1 hl).1
+      · exfalso
+        obtain ⟨s, df, t, hs, hdf, ho, hte, _, e, hl⟩ := a
+        rw [e] at hl
+        exact z t ((pawn_capture_legal g.board g.player k h.ctx 0#64 op dp ms s t _ df hdf hs ho hte rfl rfl
+          ⟨by simp [Move.capture], by simp [Move.capture]⟩).1 hl).1
+      · exfalso
+        have := (sLep m).2 a
+        rw [hep0] at this; cases this
+      · exfalso
+        obtain ⟨s, t, hs, ho, he, _, ⟨pr, _, e⟩, hl⟩ := a
+        rw [e] at hl
+        have hf : s.forward g.player = some t := by
+          rw [← (Geo.offset_forward s g.player (Geo.mem_players _)).1]; exact ho
+        exact z t ((pawn_push_legal g.board g.player k h.ctx 0#64 op dp ms s t _ hs hf he (qp_src _ _ _)
+          (qp_dst _ _ _) (qp_flag _ _ _)).1 hl).1
+      · exfalso
+        obtain ⟨s, t, hs, ho, he, _, e, hl⟩ := a
+        rw [e] at hl
+        have hf : s.forward g.player = some t := by
+          rw [← (Geo.offset_forward s g.player (Geo.mem_players _)).1]; exact ho
+        exact z t ((pawn_push_legal g.board g.player k h.ctx 0#64 op dp ms s t _ hs hf he rfl rfl
+          ⟨by simp [Move.quiet], by simp [Move.quiet]⟩).1 hl).1
+      · exfalso
+        obtain ⟨s, t1, t2, hs, ho1, he1, _, ho2, he2, e, hl⟩ := a
+        rw [e] at hl
+        have hoo := Geo.offset_forward s g.player (Geo.mem_players _)
+        have e1 : s.forward g.player = some t1 := by rw [← hoo.1]; exact ho1
+        have e2 : t1.forward g.player = some t2 := by
+          have := hoo.2
+          rw [ho2, e1] at this
+          exact this.symm
+        exact z t2 ((pawn_double_legal g.board g.player k h.ctx 0#64 op dp ms s t1 t2 _ hs e1 e2 he1 he2 rfl rfl
+          ⟨by simp [Move.quiet], by simp [Move.quiet]⟩).1 hl).1
+      · exact absurd (eKn.2 a) hKn0
+      · obtain ⟨s, hs, a1, a2⟩ := a
+        have := (h.ctx.king s).1 hs
+        subst this
+        exact ⟨a1, a2⟩
+      · exfalso
+        have := eD.2 a
+        exact hsl0 _ _ _ _ _ _ this
+      · exfalso
+        have := eO.2 a
+        exact hsl0 _ _ _ _ _ _ this
+      · exfalso
+        obtain ⟨hcs, _⟩ := a
+        rw [castleMoves_eq] at hcs
+        -- any castling move needs the king unattacked on its home square
+        have hnone : ∀ (ks : Sq) (right : Bool) (rf : Sq) (emp path : List Sq) (dst : Sq),
+            m ∉ castleMk g.board.squares g.player ks right rf emp path dst := by
+          intro ks right rf emp path dst hm
+          unfold castleMk at hm
+          split at hm
+          · rename_i hcond
+            simp only [Bool.and_eq_true, beq_iff_eq, Bool.not_eq_true'] at hcond
+            obtain ⟨⟨⟨⟨⟨_, hk1⟩, _⟩, _⟩, hna⟩, _⟩ := hcond
+            have : ks = k := (h.ctx.king ks).1 hk1
+            subst this
+            have hz : attackersOf g.board g.player ks = 0#64 := by
+              apply Decidable.byContradiction
+              intro hne
+              rw [(attackersOf_ne_zero T g.board hc g.player ks).1 hne] at hna; cases hna
+            rw [hz] at hn
+            unfold BB.count at hn
+            rw [toList_zero] at hn
+            simp at hn
+          · cases hm
+        simp only [ofGame] at hcs
+        cases hp : g.player with
+        | white =>
+          rw [hp] at hcs hnone
+          simp only [List.mem_append] at hcs
+          rcases hcs with c | c
+          · exact hnone _ _ _ _ _ _ c
+          · exact hnone _ _ _ _ _ _ c
+        | black =>
+          rw [hp] at hcs hnone
+          simp only [List.mem_append] at hcs
+          rcases hcs with c | c
+          · exact hnone _ _ _ _ _ _ c
+          · exact hnone _ _ _ _ _ _ c
+
+/-- **generate_exact**: in every position satisfying `PosH` both generator stages answer, and together
+they list exactly the rules' legal moves (same squares, same flag) -/
+theorem generate_exact (T : SliderTables) (g : Game) (k : Sq) (h : PosH g k) :
+    ∃ caps cache quiets, generateCaptures g = some (caps, cache) ∧ generateQuiets g cache = some quiets ∧
+      ∀ m, m ∈ caps ++ quiets ↔ m ∈ legalMoves (ofGame g) := by
+  by_cases hn : BB.count (attackersOf g.board g.player k) > 1
+  · exact generate_gt1 T g k h hn
+  · exact generate_le1 T g k h hn
+
+end Tcheran
